@@ -37,7 +37,7 @@ def fragSize (t : Table) (r : Int) : Nat := (fragment t r).length
 inductive Method where
   | all
   | leafs
-  | list (allowed : List Int)   -- `stitch_skeletons(method=[ids])` as documented
+  | list (allowed : List Int)   -- `stitch_skeletons(method=[ids])`: only these nodes (ids of the combined table)
 deriving Repr
 
 structure Opts where
@@ -225,8 +225,8 @@ def remapNode (m : List (Int × Int)) (n : Node) : Node :=
   { n with id := remapId m n.id, parent := remapId m n.parent }
 
 /-- Node ids, parent ids, connector node ids and the node ids in the tag lists all go through the same
-map.  (The pinned navis applies the map to the tag *names* instead of the tagged node ids — known
-finding; the model states the behaviour the property demands.) -/
+map.  (Historical: before the `fix:` commit for C11 navis applied the map to the tag *names* instead of
+the tagged node ids and appended the master's tag lists to themselves.) -/
 def remapSkel (m : List (Int × Int)) (s : Skel) : Skel :=
   { nodes := s.nodes.map (remapNode m)
     conns := s.conns.map fun c => (c.1, remapId m c.2)
@@ -291,15 +291,6 @@ def combine (mIx : Nat) (l : List Skel) : Skel :=
 def stitch (mIx : Nat) (l : List Skel) (o : Opts) : Skel :=
   let c := combine mIx l
   { c with nodes := heal c.nodes o }
-
-/-- What the pinned code does with tags instead (diagnostic only): the tagged node ids are NOT remapped
-and, because the master's tag dict is the accumulator that is also iterated, every list present when the
-loop reaches the master is appended to itself. -/
-def tagsAsCoded (mIx : Nat) (l : List Skel) : List (Int × List Int) :=
-  let base := match l[mIx]? with | some m => mergeTags m.tags | none => []
-  (l.zipIdx.foldl (fun acc si =>
-      if si.2 = mIx then acc.map fun e => (e.1, e.2 ++ e.2)
-      else si.1.tags.foldl addTag acc) base)
 
 /-! ### property checker evaluated on the implementation's own output -/
 
